@@ -212,8 +212,11 @@ impl Host for SimHost {
         } else {
             truth
         };
+        // first answer since `current_file` was last handed over = the parse-time answer that is
+        // frozen into the cached module; later (extraction-time) calls re-resolve on every build
         st.resolve_log
-            .insert((current_file.to_string(), specifier.to_string()), r.clone());
+            .entry((current_file.to_string(), specifier.to_string()))
+            .or_insert_with(|| r.clone());
         r
     }
     fn emit_diagnostic(&mut self, json: String) {
